@@ -120,6 +120,22 @@ def _walk_lark_tree(op, *, data_def=None) -> data_algebra.expr_rep.Term:
                             op_name, children, inline=True, method=False
                         )
                         return res
+                if (r_op.data == "comparison") and (nc > 3):
+                    # Python's meaning of a comparison chain: a < b <= c is (a < b) and (b <= c)
+                    operands = [
+                        _r_walk_lark_tree(r_op.children[i]) for i in range(0, nc, 2)
+                    ]
+                    links = []
+                    for i in range((nc - 1) // 2):
+                        op_name = str(r_op.children[2 * i + 1])
+                        try:
+                            op_name = op_remap[op_name]
+                        except KeyError:
+                            pass
+                        links.append(getattr(operands[i], op_name)(operands[i + 1]))
+                    return data_algebra.expr_rep.kop_expr(
+                        "and", links, inline=True, method=False
+                    )
                 # just linear chain ops
                 res = _r_walk_lark_tree(r_op.children[0])
                 for i in range((nc - 1) // 2):
